@@ -16,8 +16,12 @@
    on uint64 with explicit wrap-around ([add1], [sub1] are mod 2^64).
 
    [dstep] is the slice model of the device for this property: one peer, its
-   current keypair's (receiver index, send counter), the staged queue, and
-   whether the 5 s spacing of SendHandshakeInitiation allows an initiation.
+   current keypair's (receiver index, send counter, role), the unconfirmed
+   "next" keypair of a handshake we answered, the staged queue, and whether the
+   5 s spacing of SendHandshakeInitiation allows an initiation.  The role
+   (isInitiator) is carried but does not influence anything here: the
+   message-count rekey rule of keepKeyFreshSending applies to both roles (only
+   its time-based half, not modelled, is initiator-only).
    No proofs in this file. *)
 From WG Require Import Base.Prelude Gen.Constants.
 Local Open Scope N_scope.
@@ -51,23 +55,26 @@ End Number.
 
 (* payload of a transport message: 0 = keepalive, id >= 1 = the data packet
    that carries sequence number id *)
-Record keyp := { kidx : N; knonce : N }.
+Record keyp := { kidx : N; knonce : N; kinit : bool }.   (* remote index, sendNonce, isInitiator *)
 
 Record dst := {
   cur : option keyp;            (* peer.keypairs.current: remote index and sendNonce *)
+  nxt : option keyp;            (* peer.keypairs.next: a session we answered, not yet confirmed by data *)
   staged : list (list N);       (* peer.queue.staged: containers of payloads *)
   init_ok : bool;               (* time.Since(lastSentHandshake) >= RekeyTimeout *)
   pending : bool                (* an initiation of ours is unanswered *)
 }.
 
-Definition dinit : dst := {| cur := None; staged := []; init_ok := true; pending := false |}.
+Definition dinit : dst := {| cur := None; nxt := None; staged := []; init_ok := true; pending := false |}.
 
 Inductive ev :=
 | SetNonce (v : N)              (* hook VerifSetSendNonce on the current keypair *)
 | TunBatch (pkts : list N)      (* one TUN read for this peer: StagePackets; SendStagedPackets *)
 | Answer (idx : N)              (* the remote party answers our latest initiation; its index is idx *)
 | AllowInit                     (* hook VerifShiftHandshakeTimes: the 5 s spacing has elapsed *)
-| Uapi (pka_on : bool).         (* IpcSet on the peer: handlePostConfig (SendKeepalive if pka turned on; SendStagedPackets) *)
+| Uapi (pka_on : bool)          (* IpcSet on the peer: handlePostConfig (SendKeepalive if pka turned on; SendStagedPackets) *)
+| RefInit (idx : N)             (* the remote party initiates (its index is idx); we answer: the new keypair waits in "next" *)
+| RefData.                      (* a data message under the remote party's latest initiated session: confirms "next" *)
 
 Record out := { o_tx : list (N * N * N);   (* (receiver index, counter, payload) in sending order *)
                 o_init : N }.              (* handshake initiations emitted *)
@@ -93,7 +100,7 @@ Fixpoint flush_loop (idx nonce : N) (q : list (list N)) : N * list (list N) * li
 (* SendHandshakeInitiation(false) *)
 Definition initiate (s : dst) (tx : list (N * N * N)) : dst * out :=
   if init_ok s
-  then ({| cur := cur s; staged := staged s; init_ok := false; pending := true |}, {| o_tx := tx; o_init := 1 |})
+  then ({| cur := cur s; nxt := nxt s; staged := staged s; init_ok := false; pending := true |}, {| o_tx := tx; o_init := 1 |})
   else (s, {| o_tx := tx; o_init := 0 |}).
 
 Definition nonempty {A} (l : list A) : bool := match l with [] => false | _ => true end.
@@ -110,7 +117,7 @@ Definition flush (s : dst) : dst * out :=
           if Reject <=? knonce k then initiate s []
           else
             let '(n', q', tx, ex) := flush_loop (kidx k) (knonce k) (staged s) in
-            let s1 := {| cur := Some {| kidx := kidx k; knonce := n' |}; staged := q';
+            let s1 := {| cur := Some {| kidx := kidx k; knonce := n'; kinit := kinit k |}; nxt := nxt s; staged := q';
                          init_ok := init_ok s; pending := pending s |} in
             if ex || (nonempty tx && (Rekey <? n')) then initiate s1 tx
             else (s1, {| o_tx := tx; o_init := 0 |})
@@ -120,7 +127,7 @@ Definition flush (s : dst) : dst * out :=
 (* SendKeepalive's first half *)
 Definition stage_keepalive (s : dst) : dst :=
   match staged s with
-  | [] => {| cur := cur s; staged := [[0]]; init_ok := init_ok s; pending := pending s |}
+  | [] => {| cur := cur s; nxt := nxt s; staged := [[0]]; init_ok := init_ok s; pending := pending s |}
   | _ => s
   end.
 
@@ -128,22 +135,33 @@ Definition dstep (s : dst) (e : ev) : dst * out :=
   match e with
   | SetNonce v =>
       (match cur s with
-       | Some k => {| cur := Some {| kidx := kidx k; knonce := v |}; staged := staged s;
+       | Some k => {| cur := Some {| kidx := kidx k; knonce := v; kinit := kinit k |}; nxt := nxt s; staged := staged s;
                       init_ok := init_ok s; pending := pending s |}
        | None => s
        end, {| o_tx := []; o_init := 0 |})
   | TunBatch pkts =>
       match pkts with
       | [] => (s, {| o_tx := []; o_init := 0 |})
-      | _ => flush {| cur := cur s; staged := stage (staged s) pkts; init_ok := init_ok s; pending := pending s |}
+      | _ => flush {| cur := cur s; nxt := nxt s; staged := stage (staged s) pkts; init_ok := init_ok s; pending := pending s |}
       end
   | Answer idx =>
       if pending s then
         (* BeginSymmetricSession: a fresh current keypair; SendKeepalive *)
-        flush (stage_keepalive {| cur := Some {| kidx := idx; knonce := 0 |}; staged := staged s;
+        flush (stage_keepalive {| cur := Some {| kidx := idx; knonce := 0; kinit := true |}; nxt := None; staged := staged s;
                                   init_ok := init_ok s; pending := false |})
       else (s, {| o_tx := []; o_init := 0 |})
   | AllowInit =>
-      ({| cur := cur s; staged := staged s; init_ok := true; pending := pending s |}, {| o_tx := []; o_init := 0 |})
+      ({| cur := cur s; nxt := nxt s; staged := staged s; init_ok := true; pending := pending s |}, {| o_tx := []; o_init := 0 |})
   | Uapi pka_on => flush (if pka_on then stage_keepalive s else s)
+  | RefInit idx =>
+      (* ConsumeMessageInitiation; SendHandshakeResponse (lastSentHandshake = now); BeginSymmetricSession as
+         responder: the keypair goes to "next"; our own unanswered initiation, if any, is forgotten *)
+      ({| cur := cur s; nxt := Some {| kidx := idx; knonce := 0; kinit := false |}; staged := staged s;
+          init_ok := false; pending := false |}, {| o_tx := []; o_init := 0 |})
+  | RefData =>
+      (* RoutineSequentialReceiver: ReceivedWithKeypair promotes next to current; SendStagedPackets *)
+      match nxt s with
+      | Some k => flush {| cur := Some k; nxt := None; staged := staged s; init_ok := init_ok s; pending := pending s |}
+      | None => (s, {| o_tx := []; o_init := 0 |})
+      end
   end.
